@@ -381,7 +381,9 @@ class C10Machine(RecordingMixin, RuleBasedStateMachine):
         src = self.circs[ci % len(self.circs)]
         vals = self.current_values(src)
         if freeze and not all(valid_for(k, v) for k, v in zip(src["kinds"], vals)):
-            return
+            # frozen while a value is invalid for its component: the copy keeps that value, so using the copy has to
+            # surface it as a compilation error exactly as the live circuit does (check_circuit asserts it)
+            self.info_labels.add("frozen-while-invalid")
         try:
             real = src["real"].copy(freeze_parameters=freeze)
         except Exception as e:  # noqa: BLE001
